@@ -17,7 +17,7 @@ CHECKS = {
                 text="QueuePool overflow accounting (_inc_overflow/_dec_overflow/_do_get/_do_return_conn) is proved in a monitor-with-interference model: other threads may change the shared counters and the queue at every statement outside the lock, at lock acquisition and around calls out of the pool, subject to the monitor invariant slots + pending == pool_size + _overflow, _overflow <= max_overflow, which is proved before every such point and at every exit (ghost claim accounting) — so slots <= pool_size + max_overflow under any schedule of these atomic steps; util.queue.Queue (put/get in all three blocking modes) against its representation invariant, with a ghost monotonic clock: a timed get/put raises Empty/Full only once its whole timeout has elapsed, however often Condition.wait returns early (stolen or spurious wake-ups); plus a syntactic lock-discipline obligation. Bounded complement: sequential pool histories and real waiter threads on deterministic schedules with stolen wake-ups.",
                 note="interleaving granularity = statements outside locks / whole critical sections (no explicit schedule enumeration); assumed contracts on _create_connection, record.close() (Full path) and Condition.wait(); 'one connection never held by two checkouts' beyond the queue contract is not decided; other pool classes not covered"),
     "C34": dict(level="proof", technique=PROOF_TECH, design="DESIGN.md §5 C34",
-                text="every method of the _WeakInstanceDict container (add, replace, _add_unpresent, get, __getitem__, __contains__, contains_state, fast_get_state, safe_discard, _fast_discard, _manage_incoming/removed_state) is proved against a whole-map postcondition: add never overwrites a live different instance (raises, map unchanged), discards remove only the given state, every other key is untouched.",
+                text="every method of the _WeakInstanceDict container (add, replace, _add_unpresent, get, __getitem__, __contains__, contains_state, fast_get_state, safe_discard, _fast_discard, _manage_incoming/removed_state) is proved against a whole-map postcondition: add never overwrites a live different instance (raises, map unchanged), discards remove only the given state, every other key is untouched. SessionTransaction._remove_snapshot (SAVEPOINT release): everything the savepoint recorded as new/dirty/deleted and every primary-key switch flushed inside it is handed to the enclosing transaction, whose other entries are untouched.",
                 note="weakref liveness constant during a call (GC-race arms proved unreachable sequentially); loading/Session.get paths and the database are outside the proof (bounded complement)"),
     "C48": dict(level="proof", technique=PROOF_TECH, design="DESIGN.md §5 C48",
                 text="InstanceState._modified_event is proved to maintain, on every exit including the inlined autobegin raising: modified and attached to a session => the state holds a strong reference to its object (quick tier: the attr-is-None paths, 93 obligations; thorough tier: all 317 paths / 1880 obligations incl. committed_state 'first write wins'). Bounded complement: histories with dropped references + gc.collect() + commit compared with SQLite, 8 Session configurations.",
